@@ -23,10 +23,12 @@ struct PdoCfgRun : NodeEnv {
         add_u8(specs, 0x2100, 0, CO_OBJ_D___R_, 9);
         for (auto &o : oc) if (o.exists) { uint8_t fl = (uint8_t)((o.rd ? CO_OBJ_____R_ : 0) | (o.wr ? CO_OBJ______W : 0) | (o.map ? CO_OBJ____P__ : 0)); add_typed(specs, o.width == 1 ? T_U8 : o.width == 2 ? T_U16 : T_U32, o.idx, o.sub, fl, 0x11u * o.sub); }
         for (int n = 0; n < nR; n++) { std::vector<uint32_t> maps; int k = (int)plan.c("rmap" + std::to_string(n), 1); for (int i = 0; i < k && i < 3; i++) maps.push_back(CO_LINK(0x2100, 1 + i, 8 * oc[(size_t)i].width)); add_rpdo(specs, n, (0x200u + 0x100u * (uint32_t)n + nodeId) | (plan.c("rvalid" + std::to_string(n), 1) ? 0 : 0x80000000u), (uint8_t)plan.c("rtype" + std::to_string(n), 254), maps, true); }
-        for (int n = 0; n < nT; n++) { std::vector<uint32_t> maps; int k = (int)plan.c("tmap" + std::to_string(n), 1); for (int i = 0; i < k && i < 3; i++) maps.push_back(CO_LINK(0x2100, 1 + i, 8 * oc[(size_t)i].width)); add_tpdo(specs, n, (0x40000180u + 0x100u * (uint32_t)n + nodeId) | (plan.c("tvalid" + std::to_string(n), 1) ? 0 : 0x80000000u), (uint8_t)plan.c("ttype" + std::to_string(n), 254), 0, 0, maps, true); }
+        for (int n = 0; n < nT; n++) { std::vector<uint32_t> maps; int k = (int)plan.c("tmap" + std::to_string(n), 1); for (int i = 0; i < k && i < 3; i++) maps.push_back(CO_LINK(0x2100, 1 + i, 8 * oc[(size_t)i].width)); add_tpdo(specs, n, (0x40000180u + 0x100u * (uint32_t)n + nodeId) | (plan.c("tvalid" + std::to_string(n), 1) ? 0 : 0x80000000u), (uint8_t)plan.c("ttype" + std::to_string(n), 254), 0, (uint16_t)plan.c("tev", 0), maps, true); }
         NodeCfg cfg; cfg.nodeId = nodeId; cfg.freq = freq; cfg.tmrNum = 16;
         w.build(0, cfg, specs); w.init(0); w.start(0);
         if (CONodeGetErr(N()) != CO_ERR_NONE) fail("setup/node-error", "node reports an error after initialisation");
+        // F15: every timer slot taken by the application, TPDOs with an event time: an activation cannot get its timer - whatever the node then answers, a refused write changes nothing
+        if (plan.c("poolfull", 0)) { w.cur = 0; while (COTmrCreate(&N()->Tmr, 1000000, 0, [](void *) {}, nullptr) >= 0) {} (void)CONodeGetErr(N()); cov.hit("F15-timer-pool-full"); }
     }
     uint16_t comIdx(bool tp, int n) { return (uint16_t)((tp ? 0x1800 : 0x1400) + n); }
     uint16_t mapIdx(bool tp, int n) { return (uint16_t)((tp ? 0x1A00 : 0x1600) + n); }
@@ -93,7 +95,7 @@ struct PdoCfgRun : NodeEnv {
                 if (what >= 1 && what <= 8 && cntBefore == 0) { const OClass *t = find((uint16_t)(val >> 16), (uint8_t)(val >> 8)); uint8_t bits = (uint8_t)val; if (t && t->map && (tp ? t->rd : t->wr) && (bits / 8 == t->width || (bits == 24 && t->width == 4)) && bits % 8 == 0) must = true; }
                 if (what == 0 && val <= 8) { uint32_t total = 0; bool allOk = true; for (uint32_t i = 1; i <= val; i++) { uint32_t e = w.raw(0, mapIdx(tp, n), (uint8_t)i); total += (e & 0xFF) / 8; if (!find((uint16_t)(e >> 16), (uint8_t)(e >> 8))) allOk = false; } if (total <= 8 && allOk) must = true; }
                 if (what == 10 && ((val >= 1 && val <= 240) || val >= 254)) must = true;
-                if (what == 9 && !(val & 0x80000000u) && !(val & 0x20000000u) && (val & 0x1FFFF800u) == 0 && (!tp || (val & 0x40000000u))) { SM sm = storedMap(tp, n); if (sm.ok) must = true; }
+                if (what == 9 && !(val & 0x80000000u) && !(val & 0x20000000u) && (val & 0x1FFFF800u) == 0 && (!tp || (val & 0x40000000u))) { SM sm = storedMap(tp, n); if (sm.ok && !(tp && plan.c("poolfull", 0))) must = true; }
                 if (what == 9 && (val & 0x80000000u) && !(val & 0x20000000u) && (!tp || (val & 0x40000000u))) must = true;
             }
             if (must) fail("cfg/valid-write-refused", ctx);
@@ -129,7 +131,7 @@ struct PdoCfgRun : NodeEnv {
 };
 
 Plan gen_pdocfg(Rng &r, bool thorough) {
-    Plan p;
+    Plan p; if (r.chance(1, 6)) { p.cfg["poolfull"] = 1; p.cfg["tev"] = r.pick<int64_t>({20, 50}); }
     for (int n = 0; n < 2; n++) { p.cfg["rvalid" + std::to_string(n)] = r.below(2); p.cfg["tvalid" + std::to_string(n)] = r.below(2); p.cfg["rmap" + std::to_string(n)] = r.below(4); p.cfg["tmap" + std::to_string(n)] = r.below(4); p.cfg["rtype" + std::to_string(n)] = r.pick<int64_t>({254, 255, 1}); p.cfg["ttype" + std::to_string(n)] = r.pick<int64_t>({254, 255, 1}); }
     auto link = [&]() -> int64_t { static const uint32_t targets[] = {0x210001, 0x210002, 0x210003, 0x210004, 0x210005, 0x210006, 0x210007, 0x210008, 0x210009, 0x210020, 0x2F0001, 0x100000, 0x000500}; static const uint8_t widths[] = {1, 2, 4, 4, 1, 2, 1, 4, 1, 1, 1, 4, 1}; uint32_t i = r.below(13); uint32_t bits = r.chance(3, 4) ? widths[i] * 8u : r.pick<uint32_t>({8, 16, 24, 32, 64, 0, 1, 40}); return (int64_t)(targets[i] << 8 | bits); };
     int n = (int)r.range(4, thorough ? 60 : 30);
